@@ -1324,6 +1324,7 @@ func S17(rc *RC) {
 	tree := c.Func(fi.Decl)
 	var bad []string
 	found := 0
+	halves := map[string]bool{}
 	var walk func(ns []*ir.Node, inits map[string]string)
 	walk = func(ns []*ir.Node, inits map[string]string) {
 		for _, n := range ns {
@@ -1336,11 +1337,22 @@ func S17(rc *RC) {
 				if m != nil && regexp.MustCompile(`\[`+regexp.QuoteMeta(m[2])+`\] != [%$][\w@\[\]]*\[`+regexp.QuoteMeta(m[2])+`\]`).MatchString(body) {
 					found++
 					v := m[2]
+					bound := strings.TrimSpace(m[1])
+					isDims := bound == "%dims" || bound == "$r.Dims()" || bound == "len($r)" || bound == "len(%newShape)"
+					// loop fission: the dimensions in front of the axis and those behind it are
+					// compared by two loops, [0, axis) and [axis+1, dims) - together everything but the axis
+					if inits[v] == "0" && bound == "$axis" {
+						halves["front"] = true
+						continue
+					}
+					if (inits[v] == "($axis + 1)" || inits[v] == "(1 + $axis)") && isDims {
+						halves["back"] = true
+						continue
+					}
 					if inits[v] != "0" {
 						bad = append(bad, fmt.Sprintf("the comparison loop starts at %s = %s, not at dimension 0", v, inits[v]))
 					}
-					bound := strings.TrimSpace(m[1])
-					if bound != "%dims" && bound != "$r.Dims()" && bound != "len($r)" && bound != "len(%newShape)" {
+					if !isDims {
 						bad = append(bad, "the comparison loop is bounded by "+bound+", not by the number of dimensions")
 					}
 					// the only exemption inside the loop is the axis
@@ -1371,6 +1383,9 @@ func S17(rc *RC) {
 		}
 	}
 	walk(tree, map[string]string{})
+	if halves["front"] != halves["back"] {
+		bad = append(bad, "only the dimensions on one side of the axis are compared")
+	}
 	if found == 0 {
 		rc.S.Undec("S17", "tensor.(Shape).Concat#compare", pos, "no loop comparing the operands' dimensions is recognised (neither a counting loop nor a range over a shape with `a[d] != b[d]` in its body)")
 		return
